@@ -49,8 +49,10 @@ def handleReport (line : String) : String :=
               | [i, ls] => i.toNat?.map fun i => (i, ls.splitOn ",")
               | _ => none
           let labels := fun a => match labelTab.find? (·.1 + start == a) with | some (_, l) => l | none => []
-          let rawF := fun a => raws.getD (a - start) 0
-          let valF := fun a => vals.getD (a - start) 0
+          let rawsA := raws.toArray
+          let valsA := vals.toArray
+          let rawF := fun a => rawsA.getD (a - start) 0
+          let valF := fun a => valsA.getD (a - start) 0
           -- Impl model
           let its := if median then raws else dedup raws
           let idx := floatIdx its.length prcnt
@@ -91,7 +93,10 @@ def handleReport (line : String) : String :=
                     a == ea && v == valF ea && num == shown (rawF ea)
                 let flaggedRaws := (addrLines.zip raws).filterMap fun ((f, _), r) => if f then some r else none
                 let unflaggedRaws := (addrLines.zip raws).filterMap fun ((f, _), r) => if f then none else some r
-                let upward := flaggedRaws.all fun f => unflaggedRaws.all fun u => shown f ≥ shown u
+                -- every flagged count ≥ every unflagged count  ⇔  min flagged ≥ max unflagged
+                let minF := flaggedRaws.foldl (fun m f => match m with | none => some (shown f) | some x => some (min x (shown f))) none
+                let maxU := unflaggedRaws.foldl (fun m u => max m (shown u)) 0
+                let upward := unflaggedRaws.isEmpty || (match minF with | none => true | some x => x ≥ maxU)
                 let rankedFlagged := if median then flaggedRaws.length else (dedup flaggedRaws).length
                 let need := (its.length * prcnt + 99) / 100
                 let topOk := prcnt == 0 || rankedFlagged ≥ need
